@@ -418,7 +418,11 @@ def glue_contextlib() -> None:
     @elaborate_context.register(ExitStackBase)
     def elaborate_exit_stack(stack: Any, context: Context) -> None:
         stackname = context.varname or "_"
-        children = []
+        # Attach the list up front, and each child before it is filled in, so
+        # that whatever was learned (including errors recorded on the children's
+        # inner stacks) survives if a later hook raises
+        children: List[Context] = []
+        context.children = children
         # List of (is_sync, callback) tuples, from outermost to innermost, where
         # each callback takes parameters following the signature of a __exit__ method
         callbacks: List[Tuple[bool, Callable[..., Any]]] = list(stack._exit_callbacks)
@@ -476,11 +480,9 @@ def glue_contextlib() -> None:
                 varname=f"{stackname}[{idx}]",
                 start_line=context.start_line,
             )
+            children.append(child_context)
             _extract.fill_context(child_context)
             child_context.description = f"{tag}{stackname}.{method}({child_context.description or arg or '...'})"
-            children.append(child_context)
-
-        context.children = children
 
 
 @builtin_glue("threading")
